@@ -223,45 +223,141 @@ def objOp {α} (null : α) (ms : List (Key × α)) : MOp α → Option (List (Ke
       | none => some (ms ++ [(k, x)], .val x))
   | _ => Option.none
 
-/-- the operation on the target value (representation level) -/
+/-- `v[k] = x` on a value that is not a container: `null` becomes an object, anything else panics -/
+def scalarOp {α} (mkObj : List (Key × α) → α) (isNull : Bool) (v : α) : MOp α → α × Out α
+  | .setKey k x => if isNull then (mkObj [(k, x)], .done) else (v, .panic)
+  | _ => (v, .panic)
+
+def DV.isNull : DV → Bool
+  | .null => true
+  | _ => false
+def J.isNull : J → Bool
+  | .null => true
+  | _ => false
+
+/-- a container operation on the target value (representation level): the container is promoted
+    first (`as_array_mut` / `as_object_mut` / `as_mut`) -/
+def DV.applyC (op : MOp DV) (v : DV) : DV × Out DV :=
+  match promote v with
+  | .arrMut xs =>
+    (match arrOp xs op with
+     | some r => (.arrMut r.1, r.2)              -- (the array has been promoted even when the call then panics)
+     | none => (v, .panic))                      -- wrong kind: rejected before any access
+  | .objMut ms =>
+    (match objOp DV.null ms op with
+     | some r => (.objMut r.1, r.2)
+     | none => (v, .panic))
+  | _ => scalarOp DV.objMut v.isNull v op
+
+def J.applyC (op : MOp J) (v : J) : J × Out J :=
+  match v with
+  | .arr xs =>
+    (match arrOp xs op with
+     | some r => (.arr r.1, r.2)
+     | none => (v, .panic))
+  | .obj ms =>
+    (match objOp J.null ms op with
+     | some r => (.obj r.1, r.2)
+     | none => (v, .panic))
+  | _ => scalarOp J.obj v.isNull v op
+
+/-- the operation on the target value -/
 def DV.apply (op : MOp DV) (v : DV) : DV × Out DV :=
   match op with
   | .take => (.null, .val v)
   | .assign x => (x, .done)
-  | op =>
-    match promote v with
-    | .arrMut xs =>
-      (match arrOp xs op with
-       | some (xs', o) => (.arrMut xs', o)         -- (`as_array_mut` has promoted the array even when the call then panics)
-       | none => (v, .panic))                      -- wrong kind: rejected before any access
-    | .objMut ms =>
-      (match objOp DV.null ms op with
-       | some (ms', o) => (.objMut ms', o)
-       | none => (v, .panic))
-    | w =>
-      -- not a container
-      (match op, w with
-       | .setKey k x, .null => (.objMut [(k, x)], .done)      -- null becomes an object
-       | _, _ => (v, .panic))
+  | op => DV.applyC op v
 
 def J.apply (op : MOp J) (v : J) : J × Out J :=
   match op with
   | .take => (.null, .val v)
   | .assign x => (x, .done)
-  | op =>
-    match v with
-    | .arr xs =>
-      (match arrOp xs op with
-       | some (xs', o) => (.arr xs', o)
-       | none => (v, .panic))
-    | .obj ms =>
-      (match objOp J.null ms op with
-       | some (ms', o) => (.obj ms', o)
-       | none => (v, .panic))
-    | w =>
-      (match op, w with
-       | .setKey k x, .null => (.obj [(k, x)], .done)
-       | _, _ => (v, .panic))
+  | op => J.applyC op v
+
+/-! ### histories over several values -/
+
+/-- a value argument of an operation: a fresh value, or a clone of a part of a live value -/
+inductive Arg where
+  | lit (v : DV)
+  | part (j : Nat) (path : List Idx)
+  deriving Repr, Inhabited
+
+def MOp.mapM {α β} (f : α → Option β) : MOp α → Option (MOp β)
+  | .push x => (f x).map .push
+  | .pop => some .pop
+  | .insertAt n x => (f x).map (.insertAt n)
+  | .removeAt n => some (.removeAt n)
+  | .swapRemove n => some (.swapRemove n)
+  | .truncate n => some (.truncate n)
+  | .clear => some .clear
+  | .objInsert k x => (f x).map (.objInsert k)
+  | .objRemove k => some (.objRemove k)
+  | .take => some .take
+  | .assign x => (f x).map .assign
+  | .setKey k x => (f x).map (.setKey k)
+  | .setIdx n x => (f x).map (.setIdx n)
+  | .orInsert k x => (f x).map (.orInsert k)
+
+inductive HOp where
+  | new (v : DV)                                        -- a parsed / built value enters
+  | clone (i : Nat)
+  | drop (i : Nat)
+  | read (i : Nat) (path : List Idx)                    -- `pointer(path)`
+  | mutate (i : Nat) (path : List Idx) (op : MOp Arg)   -- `pointer_mut(path)` then the operation
+  deriving Repr, Inhabited
+
+def DV.resolve (slots : List DV) : Arg → Option DV
+  | .lit v => some v
+  | .part j path => match slots[j]? with
+    | some v => v.pointer path
+    | none => none
+
+def J.resolve (slots : List J) : Arg → Option J
+  | .lit v => some (abs v)
+  | .part j path => match slots[j]? with
+    | some v => v.pointer path
+    | none => none
+
+/-- one step of a history on the representations of all live values; `none` = not applicable -/
+def DV.hstep (slots : List DV) : HOp → Option (List DV × Out DV)
+  | .new v => some (slots ++ [v], .done)
+  | .clone i => match slots[i]? with
+    | some v => some (slots ++ [v], .done)
+    | none => none
+  | .drop i => if i < slots.length then some (slots.eraseIdx i, .done) else none
+  | .read i path => match slots[i]? with
+    | some v => some (slots, match v.pointer path with | some c => .val c | none => .none)
+    | none => none
+  | .mutate i path op => match slots[i]?, op.mapM (DV.resolve slots) with
+    | some v, some op' => some (slots.set i (DV.updPath (DV.apply op') path v).1, (DV.updPath (DV.apply op') path v).2)
+    | _, _ => none
+
+/-- the same step on the reference model -/
+def J.hstep (slots : List J) : HOp → Option (List J × Out J)
+  | .new v => some (slots ++ [abs v], .done)
+  | .clone i => match slots[i]? with
+    | some v => some (slots ++ [v], .done)
+    | none => none
+  | .drop i => if i < slots.length then some (slots.eraseIdx i, .done) else none
+  | .read i path => match slots[i]? with
+    | some v => some (slots, match v.pointer path with | some c => .val c | none => .none)
+    | none => none
+  | .mutate i path op => match slots[i]?, op.mapM (J.resolve slots) with
+    | some v, some op' => some (slots.set i (J.updPath (J.apply op') path v).1, (J.updPath (J.apply op') path v).2)
+    | _, _ => none
+
+/-- a whole history: the live values at the end and what every step reported -/
+def DV.hrun (slots : List DV) : List HOp → Option (List DV × List (Out DV))
+  | [] => some (slots, [])
+  | op :: rest => match DV.hstep slots op with
+    | some (slots', o) => (DV.hrun slots' rest).map fun r => (r.1, o :: r.2)
+    | none => none
+
+def J.hrun (slots : List J) : List HOp → Option (List J × List (Out J))
+  | [] => some (slots, [])
+  | op :: rest => match J.hstep slots op with
+    | some (slots', o) => (J.hrun slots' rest).map fun r => (r.1, o :: r.2)
+    | none => none
 
 end Mut
 end Sonic
